@@ -23,6 +23,9 @@ type Loc struct {
 	NoSlash bool
 	// NoPercent: never generate '%' (double unescape of path values while that finding is open)
 	NoPercent bool
+	// NonEmptyArray: arrays have at least one element (a zero-length repeated
+	// parameter or header cannot be told from an absent one)
+	NonEmptyArray bool
 	// MustSetDefaults: attributes with a default always get an explicit value
 	// (the generated client cannot express "unset" for them)
 	MustSetDefaults bool
@@ -251,6 +254,12 @@ func genValue(t *rapid.T, d *m.Design, a *m.Attr, loc Loc, depth int, stack []st
 		if depth <= 0 && lo == 0 {
 			hi = 0
 		}
+		if loc.NonEmptyArray && lo == 0 {
+			lo = 1
+			if hi < 1 {
+				hi = 1
+			}
+		}
 		n := rapid.IntRange(lo, hi).Draw(t, "arraylen")
 		el := loc
 		el.InArray = true
@@ -354,6 +363,9 @@ func genString(t *rapid.T, v *m.Validation, loc Loc) string {
 		if lo > hi {
 			lo = hi
 		}
+	}
+	if lo == 0 && hi >= 1 && (loc.NoEmpty || loc.Where == "path") {
+		lo = 1
 	}
 	// boundary classes: exactly lo, exactly hi
 	switch rapid.IntRange(0, 5).Draw(t, "lenclass") {
